@@ -262,7 +262,7 @@ func VerifC07Callback() {
 	root := verifRootDomain()
 	env := verifNewAuth([]validators.Validator{validators.NewEmailDomainValidator([]string{"*"})}, []string{root})
 	nonce := zz.NondetString("nonce")
-	zz.Assume(zz.And(nonce != "", !contains(nonce, ":"), verifCookieOK(nonce)))
+	zz.Assume(!contains(nonce, ":")) // any colon-free string, the empty one included
 	var redirect string
 	rHost := ""
 	if zz.NondetBool("redirect.from.components") {
